@@ -13,7 +13,7 @@ from optimum.quanto import Calibration, QBytesTensor, QTensor, absmax_scale, qua
 from optimum.quanto.nn import QModuleMixin
 
 AQ = ["qint8", "qfloat8_e4m3fn", "qfloat8_e5m2"]
-MODELS = ["linear", "conv", "ln", "lin-lin", "lin-relu-lin", "lin-inplace-lin", "lin-inplace-lin", "ln-lin", "conv-relu-conv", "lone-q-input"]
+MODELS = ["linear", "conv", "ln", "lin-lin", "lin-relu-lin", "lin-inplace-lin", "lin-inplace-lin", "ln-lin", "conv-relu-conv", "lone-q-input", "lin-ln", "ln-q-input"]
 MOMENTA = [0.0, 0.1, 0.5, 0.9, 0.9, 0.99]
 
 
@@ -63,7 +63,10 @@ def build(case, g):
         mods, shape = [M.build_tree({"t": "linear", "i": 8, "o": 5, "bias": True}, g)], (8,)
     elif k == "conv":
         mods, shape = [M.build_tree({"t": "conv", "ci": 2, "co": 3, "k": 3, "stride": 1, "padding": 1, "dilation": 1, "groups": 1, "pmode": "zeros", "bias": True}, g)], (2, 5, 5)
-    elif k == "ln":
+    elif k == "lin-ln":
+        # a projection without bias followed by a normalisation: on small batches the normalised values are comparable to eps
+        mods, shape = [M.build_tree({"t": "linear", "i": 8, "o": 6, "bias": False}, g), M.build_tree({"t": "ln", "shape": [6], "affine": True, "bias": True, "eps": 1e-5}, g)], (8,)
+    elif k in ("ln", "ln-q-input"):
         mods, shape = [M.build_tree({"t": "ln", "shape": [6], "affine": True, "bias": True, "eps": 1e-5}, g)], (6,)
     elif k == "lin-lin":
         mods, shape = [M.build_tree({"t": "linear", "i": 8, "o": 6, "bias": True}, g), M.build_tree({"t": "linear", "i": 6, "o": 4, "bias": False}, g)], (8,)
@@ -194,7 +197,7 @@ def _exec_case(case):
                         last_batch = x
                     mags.append(float(x.abs().max()))
                     fed = x
-                    if case["model"] == "lone-q-input":
+                    if case["model"] in ("lone-q-input", "ln-q-input"):
                         s_in = (x.abs().max() / qmax * [1.0, 1.7, 0.6][nb % 3]).to(dtype)
                         fed = quantize_activation(x, aq, torch.where(s_in > 0, s_in, torch.ones_like(s_in)))
                     seen.clear()
@@ -275,7 +278,7 @@ def _exec_case(case):
         for h in handles:
             h.remove()
     # after a single batch in a fresh model nothing of that batch saturates
-    if nb == 1 and last_batch is not None and case["model"] != "lone-q-input":
+    if nb == 1 and last_batch is not None and case["model"] not in ("lone-q-input", "ln-q-input"):
         G = float(O.grid(aq)[-1])
         n0, m0 = qmods[0]
         if m0.activation_qtype is not None and not isinstance(m0, torch.nn.LayerNorm):
